@@ -1437,7 +1437,7 @@ class Exec:  # an execution path
                 if self.check(key != key0) == unsat:  # key == key0
                     return val0
         # empty array
-        elif not symbolic and re.search(r"^(storage_.+|balance)_00$", str(array)):
+        elif not symbolic and re.search(r"^(t?storage_.+|balance)_00$", str(array)):
             # note: simplifying empty array access might have a negative impact on solver performance
             return ZERO
         return Select(array, key)
@@ -1758,12 +1758,17 @@ class SolidityStorage(Storage):
         return StorageData()
 
     @classmethod
-    def empty(cls, addr: BitVecRef, slot: int, keys: tuple) -> ArrayRef:
+    def empty(
+        cls, addr: BitVecRef, slot: int, keys: tuple, transient: bool = False
+    ) -> ArrayRef:
         num_keys = len(keys)
         size_keys = cls.bitsize(keys)
+        # note: the empty array of transient storage must not share its name with the initial array of
+        # persistent storage, which is unconstrained if symbolic storage is enabled for the account
+        prefix = "tstorage" if transient else "storage"
         return Array(
             # note: uuid is excluded to be deterministic
-            f"storage_{id_str(addr)}_{slot}_{num_keys}_{size_keys}_00",
+            f"{prefix}_{id_str(addr)}_{slot}_{num_keys}_{size_keys}_00",
             BitVecSorts[size_keys],
             BitVecSort256,
         )
@@ -1778,6 +1783,7 @@ class SolidityStorage(Storage):
         keys: tuple,
         num_keys: int,
         size_keys: int,
+        transient: bool = False,
     ) -> None:
         """
         Initialize storage[addr].mapping[slot][num_keys][size_keys], if not yet initialized
@@ -1794,7 +1800,9 @@ class SolidityStorage(Storage):
         if size_keys > 0:
             # do not use z3 const array `K(BitVecSort(size_keys), ZERO)` when not ex.symbolic
             # instead use normal smt array, and generate emptyness axiom; see load()
-            storage_addr[slot, num_keys, size_keys] = cls.empty(addr, slot, keys)
+            storage_addr[slot, num_keys, size_keys] = cls.empty(
+                addr, slot, keys, transient
+            )
             return
 
         # size_keys == 0
@@ -1809,10 +1817,12 @@ class SolidityStorage(Storage):
         )
 
     @classmethod
-    def load(cls, ex: Exec, storage: dict, addr: Any, loc: Word) -> Word:
+    def load(
+        cls, ex: Exec, storage: dict, addr: Any, loc: Word, transient: bool = False
+    ) -> Word:
         (slot, keys, num_keys, size_keys) = cls.get_key_structure(ex, loc)
 
-        cls.init(ex, storage, addr, slot, keys, num_keys, size_keys)
+        cls.init(ex, storage, addr, slot, keys, num_keys, size_keys, transient)
 
         storage_addr = storage[addr]
         storage_chunk = storage_addr[slot, num_keys, size_keys]
@@ -1825,16 +1835,26 @@ class SolidityStorage(Storage):
 
         if not symbolic:
             # generate emptyness axiom for each array index, instead of using quantified formula; see init()
-            default_value = Select(cls.empty(addr, slot, keys), concat_keys)
+            default_value = Select(
+                cls.empty(addr, slot, keys, transient), concat_keys
+            )
             ex.path.append(default_value == Z3_ZERO)
 
         return ex.select(storage_chunk, concat_keys, ex.storages, symbolic)
 
     @classmethod
-    def store(cls, ex: Exec, storage: dict, addr: Any, loc: Any, val: Any) -> None:
+    def store(
+        cls,
+        ex: Exec,
+        storage: dict,
+        addr: Any,
+        loc: Any,
+        val: Any,
+        transient: bool = False,
+    ) -> None:
         (slot, keys, num_keys, size_keys) = cls.get_key_structure(ex, loc)
 
-        cls.init(ex, storage, addr, slot, keys, num_keys, size_keys)
+        cls.init(ex, storage, addr, slot, keys, num_keys, size_keys, transient)
 
         storage_addr = storage[addr]
 
@@ -1946,17 +1966,27 @@ class GenericStorage(Storage):
         return StorageData()
 
     @classmethod
-    def empty(cls, addr: BitVecRef, loc: BitVecRef) -> ArrayRef:
+    def empty(
+        cls, addr: BitVecRef, loc: BitVecRef, transient: bool = False
+    ) -> ArrayRef:
+        # note: see SolidityStorage.empty() for the naming of transient storage
+        prefix = "tstorage" if transient else "storage"
         return Array(
             # note: uuid is excluded to be deterministic
-            f"storage_{id_str(addr)}_{loc.size()}_00",
+            f"{prefix}_{id_str(addr)}_{loc.size()}_00",
             BitVecSorts[loc.size()],
             BitVecSort256,
         )
 
     @classmethod
     def init(
-        cls, ex: Exec, storage: dict, addr: Any, loc: BitVecRef, size_keys: int
+        cls,
+        ex: Exec,
+        storage: dict,
+        addr: Any,
+        loc: BitVecRef,
+        size_keys: int,
+        transient: bool = False,
     ) -> None:
         """
         Initialize storage[addr].mapping[size_keys], if not yet initialized
@@ -1969,31 +1999,41 @@ class GenericStorage(Storage):
         storage_addr = storage[addr]
 
         if size_keys not in storage_addr:
-            storage_addr[size_keys] = cls.empty(addr, loc)
+            storage_addr[size_keys] = cls.empty(addr, loc, transient)
 
     @classmethod
-    def load(cls, ex: Exec, storage: dict, addr: Any, loc: Word) -> Word:
+    def load(
+        cls, ex: Exec, storage: dict, addr: Any, loc: Word, transient: bool = False
+    ) -> Word:
         loc = cls.decode(ex, loc)
         size_keys = loc.size()
 
-        cls.init(ex, storage, addr, loc, size_keys)
+        cls.init(ex, storage, addr, loc, size_keys, transient)
 
         storage_addr = storage[addr]
         symbolic = storage_addr.symbolic
 
         if not symbolic:
             # generate emptyness axiom for each array index, instead of using quantified formula; see init()
-            default_value = Select(cls.empty(addr, loc), loc)
+            default_value = Select(cls.empty(addr, loc, transient), loc)
             ex.path.append(default_value == Z3_ZERO)
 
         return ex.select(storage_addr[size_keys], loc, ex.storages, symbolic)
 
     @classmethod
-    def store(cls, ex: Exec, storage: dict, addr: Any, loc: Any, val: Any) -> None:
+    def store(
+        cls,
+        ex: Exec,
+        storage: dict,
+        addr: Any,
+        loc: Any,
+        val: Any,
+        transient: bool = False,
+    ) -> None:
         loc = cls.decode(ex, loc)
         size_keys = loc.size()
 
-        cls.init(ex, storage, addr, loc, size_keys)
+        cls.init(ex, storage, addr, loc, size_keys, transient)
 
         storage_addr = storage[addr]
 
@@ -2220,7 +2260,7 @@ class SEVM:
 
         storage = ex.transient_storage if transient else ex.storage
 
-        val = self.storage_model.load(ex, storage, addr, loc)
+        val = self.storage_model.load(ex, storage, addr, loc, transient)
 
         ex.context.trace.append(StorageRead(addr, loc, val, transient))
         return val
@@ -2241,7 +2281,7 @@ class SEVM:
         if is_bool(val):
             val = If(val, Z3_ONE, Z3_ZERO)
 
-        self.storage_model.store(ex, storage, addr, loc, val)
+        self.storage_model.store(ex, storage, addr, loc, val, transient)
 
     def resolve_address_alias(
         self, ex: Exec, target: Address, stack, allow_branching=True
